@@ -387,6 +387,58 @@ type c07Case struct {
 	Cfg  cgConfig `json:"config"`
 	Ext  bool     `json:"extended_alphabet"`
 	Full int      `json:"unmerged_depth"`
+	// Long > 0: instead of the graph search, request paths of every length Long..Long+19 bytes: pairs of paths that
+	// differ only in their last 1-3 bytes (and only in their first variable), requested alternately
+	Long int `json:"long_paths_from,omitempty"`
+}
+
+// c07Long: cache keys must not depend on the length of method + path
+func c07Long(c c07Case, st *fw.Stats) []fw.Viol {
+	var viols []fw.Viol
+	add := func(sig, msg string) {
+		if len(viols) < 6 {
+			viols = append(viols, fw.Viol{Sig: sig, Msg: msg})
+		}
+	}
+	defs := []refmodel.RouteDef{{Path: "/p/{x}", Methods: []string{"GET", "DELETE", "OPTIONS"}}, {Path: "/{y}/tail/{z}", Methods: []string{"GET", "CONNECT"}}}
+	for L := c.Long; L < c.Long+20; L++ {
+		for _, m := range []string{"GET", "DELETE", "OPTIONS", "CONNECT"} {
+			for diff := 1; diff <= 3; diff++ {
+				if L < 12+diff {
+					continue
+				}
+				var a, b string
+				if m == "CONNECT" {
+					// the difference sits at the very end of the second variable
+					fill := strings.Repeat("q", L-len("/yy/tail/")-diff)
+					a, b = "/yy/tail/"+fill+strings.Repeat("1", diff), "/yy/tail/"+fill+strings.Repeat("2", diff)
+				} else {
+					fill := strings.Repeat("a", L-len("/p/")-diff)
+					a, b = "/p/"+fill+strings.Repeat("1", diff), "/p/"+fill+strings.Repeat("2", diff)
+				}
+				recC, recT := &hitRec{}, &hitRec{}
+				cfg := cgConfig{Cap: 4}
+				rc, pv := cgBuild(defs, cfg, true, recC)
+				rt, pv2 := cgBuild(defs, cfg, false, recT)
+				if pv != nil || pv2 != nil {
+					add("register:panic", fmt.Sprintf("long paths: registration panicked: %v %v", pv, pv2))
+					return viols
+				}
+				for i, p := range []string{a, b, a, b, a} {
+					st.Evals++
+					st.Nontrivial++
+					q := cgReq{M: m, P: p}
+					got, want := cgObserve(rc, recC, q), cgObserve(rt, recT, q)
+					if got != want {
+						add("transparency:long-path", fmt.Sprintf("routes [%s], capacity 4: %s paths of %d bytes differing in their last %d byte(s), request #%d (%s …%s): caching router observes %s; without caching %s", defsString(defs), m, len(p), diff, i+1, m, p[len(p)-6:], got, want))
+						break
+					}
+				}
+			}
+		}
+	}
+	st.Max("max_path_bytes", int64(c.Long+19))
+	return viols
 }
 
 func cgGen(tier string, emit func(cgConfig, bool)) {
@@ -397,6 +449,9 @@ func cgGen(tier string, emit func(cgConfig, bool)) {
 	for t := range cgTables {
 		for o := 0; o < 8; o++ {
 			for c := 0; c <= maxCap; c++ {
+				if tier == "quick" && c == 3 && (t+o)%2 == 1 {
+					continue // quick: the largest capacity on every second (table, options) combination
+				}
 				emit(cgConfig{Table: t, NotAllowed: o&1 != 0, Fallback: o&2 != 0, Strict: o&4 != 0, Cap: c, OptStyle: (t + o + c) % 4}, tier == "thorough")
 			}
 			// the same graph with the registration of the last route as one more action of the alphabet
@@ -430,7 +485,7 @@ var c07Spec = fw.Spec[c07Case]{
 	Level:      "model_checking",
 	StateGraph: true,
 	Rule: "explicit-state search to fix-point per configuration (11 route tables x {HandleMethodNotAllowed} x {HandleFallbackRoute} x {StrictLastSlash} x capacities 0..3(4)): state = cache content in recency order with route and params per entry (verif hook); " +
-		"all histories of length <=2 (thorough 3) without state merging, then every reachable state x every request of the alphabet (13 / 16 requests: hits, misses, evictions, HEAD->GET, 405 probes, fallback, 404) executed on the real caching router via Match and ServeHTTP and compared with the non-caching twin; for capacity 2 (thorough 1 and 3) the graph is explored again with the registration of the table's last route as one more action, enabled once at any point; non-trivial = newly reached distinct cache state",
+		"all histories of length <=2 (thorough 3) without state merging, then every reachable state x every request of the alphabet (13 / 16 requests: hits, misses, evictions, HEAD->GET, 405 probes, fallback, 404) executed on the real caching router via Match and ServeHTTP and compared with the non-caching twin; for capacity 2 (thorough 1 and 3) the graph is explored again with the registration of the table's last route as one more action, enabled once at any point; plus pairs of request paths of every length 10..309 bytes that differ only in their last 1-3 bytes, requested alternately under four methods; non-trivial = newly reached distinct cache state",
 	Assume: []string{
 		"canonical state = cache content only: tables and options are frozen after registration and contexts are reset per request (C10)",
 		"successor = replay of the shortest history on a fresh router plus one request",
@@ -440,9 +495,15 @@ var c07Spec = fw.Spec[c07Case]{
 		return map[string]any{"tables": len(cgTables), "requests": len(cgReqs(tier == "thorough")), "capacities": map[string]string{"quick": "0..3", "thorough": "0..4"}[tier], "option_subsets": 8}
 	},
 	Gen: func(tier string, emit func(c07Case)) {
+		for lo := 10; lo < 310; lo += 20 {
+			emit(c07Case{Long: lo})
+		}
 		cgGen(tier, func(c cgConfig, ext bool) { emit(c07Case{Cfg: c, Ext: ext, Full: cgFullDepth(tier)}) })
 	},
 	Run: func(c c07Case, st *fw.Stats) []fw.Viol {
+		if c.Long > 0 {
+			return c07Long(c, st)
+		}
 		return cacheGraphRun(c.Cfg, cgReqsFor(c.Cfg.Table, c.Ext), "C07", c.Full, st)
 	},
 	Guard: func(tier string, st *fw.Stats) []string {
